@@ -489,9 +489,11 @@ class ServiceDiscoveryProtocol(SOMEIPDatagramProtocol):
         asyncio.get_event_loop().call_soon(self.announcer.connection_lost, exc)
 
     def reboot_detected(self, addr: _T_SOCKADDR) -> None:
-        asyncio.get_event_loop().call_soon(self.subscriber.reboot_detected, addr)
-        asyncio.get_event_loop().call_soon(self.discovery.reboot_detected, addr)
-        asyncio.get_event_loop().call_soon(self.announcer.reboot_detected, addr)
+        # must take effect before the entries of the message that revealed the reboot are
+        # handled (Subscribe entries are handled synchronously by sd_message_received)
+        self.subscriber.reboot_detected(addr)
+        self.discovery.reboot_detected(addr)
+        self.announcer.reboot_detected(addr)
 
     def sd_message_received(
         self, sdhdr: someip.header.SOMEIPSDHeader, addr: _T_SOCKADDR, multicast: bool
@@ -800,14 +802,17 @@ class TimedStore(typing.Generic[KT]):
         callback(entry, address)
 
     def stop_all_for_address(self, address: _T_SOCKADDR) -> None:
-        for entry, (callback, handle) in self.store[address].items():
+        entries = list(self.store[address].items())
+        self.store[address].clear()
+        for entry, (callback, handle) in entries:
             if handle:
                 handle.cancel()
-            asyncio.get_event_loop().call_soon(callback, entry, address)
-        self.store[address].clear()
+            # called immediately, like in stop(): a deferred callback could be overtaken by a
+            # later refresh of the same entry and would then report the live entry as gone
+            callback(entry, address)
 
     def stop_all(self) -> None:
-        for addr in self.store.keys():
+        for addr in list(self.store.keys()):
             self.stop_all_for_address(addr)
         self.store.clear()
 
@@ -833,7 +838,8 @@ class TimedStore(typing.Generic[KT]):
             )
             return
 
-        asyncio.get_event_loop().call_soon(callback, entry, address)
+        # see stop_all_for_address() for why this is not deferred
+        callback(entry, address)
 
     def entries(self) -> typing.Iterator[KT]:
         return itertools.chain.from_iterable(x.keys() for x in self.store.values())
